@@ -129,6 +129,9 @@ func (c *Ctx) syncPolicy(fr *frame, fn *ssa.Function, args []value, pos token.Po
 	}
 	switch recv {
 	case "sync.Mutex", "sync.RWMutex", "sync.WaitGroup", "sync.Cond":
+		if recv == "sync.WaitGroup" && fn.Name() == "Wait" {
+			c.runPendingGo()
+		}
 		switch fn.Name() {
 		case "TryLock", "TryRLock":
 			return TTrue, true
